@@ -64,7 +64,11 @@ def check_pauli(rec, B, g, p, i0, causal, rng, mono=False):
         P = P.as_monomial()
         P.c = 0.5 - 1j
     case = {"P": O.show(g, p), "i0": i0, "causal": causal, "mono": mono}
-    ok, circ = rec.attempt("diag.build", case, lambda: C.diagonalize(P, i0, causal=causal))
+    flag = causal
+    if B.name == "np":   # the flag may arrive as any truthy / falsy value (numpy bool from a comparison, 0/1)
+        flag = [causal, np.bool_(causal), int(causal)][(int(g.sum()) + i0 + p) % 3]
+    case["flag"] = repr(flag)
+    ok, circ = rec.attempt("diag.build", case, lambda: C.diagonalize(P, i0, causal=flag))
     if not ok:
         return
     pg, pp = B.gp(P)
@@ -233,4 +237,9 @@ def run_sbrg(shard, rec, B):
         if t % 6 == 0 and commuting and len(cs) > 1:
             # make an identity / early term the leading one
             cs[-1] = 3.0 * np.sign(cs[-1].real or 1.0)
-        check_sbrg(rec, B, gs, ps, cs, commuting, None if t % 5 else {"max_rate": 1.0, "tol": 1e-6})
+        kw = None
+        if t % 5 == 0:
+            kw = {"max_rate": 1.0, "tol": 1e-6}
+        elif t % 5 == 1:
+            kw = {"max_rate": [0, 0.4, 0.5, 1, 3.7, 0.0][(t // 5) % 6]}
+        check_sbrg(rec, B, gs, ps, cs, commuting, kw)
